@@ -8,7 +8,8 @@
   save_strategy, resume)` on directory content `fs`: the file operations it performs until it returns or raises, and what it
   returns (`.error e` = it raised).  `crash fs ops k` = directory left by a kill after `k` byte-granular operations.
   `Reach … fs`: first run (either `resume` flag) on the empty directory killed anywhere, then any number of `resume=True`
-  runs killed anywhere.  Protocol `.repaired` = fixes/C25_atomic_marker_and_files.diff; `.asFound` = /repo.
+  runs killed anywhere.  Protocol `.repaired` = fixes/C25_atomic_marker_and_files.diff + fixes/C25_latest_invalidate_marker.diff;
+  `.atomicOnly` = only the first of the two; `.asFound` = /repo before both.
 -/
 import NiftyVerif.Lemmas.CrashCl
 import NiftyVerif.Lemmas.CrashClLatest
@@ -99,53 +100,47 @@ theorem asFound_marker_before_minisanity_history : ∃ k,
 theorem asFound_latest_in_place : ∃ k, natCrash .asFound .latest 2 k .marker = some [48] ∧
     resumeOutcome .asFound .latest 2 k = none := ⟨56, by decide⟩
 
-/-! **Known finding (not repaired): strategy `latest` after the repair.**  Every single file is replaced atomically, but the
-    set `latest.*` is not: between the first `os.replace` onto a `latest.*` file of iteration j ≥ 1 and the `os.replace` of
-    the marker of iteration j the directory holds files of iteration j under a marker that says j-1.
+/-! ### strategy `latest`
 
-    Full statement that does NOT hold (kept visible):
-      theorem crash_safe_latest : Reach sys .repaired .latest total s0 fs →
-          (run sys .repaired .latest true total s0 fs).2 = .ok (sAfter sys s0 total)
-    `latest_window_witness` is the `decide`d counter-example; what holds outside the window is `crash_safe_latest_partial`
-    (below). -/
-theorem latest_window_witness : ∃ k, natCrash .repaired .latest 2 k .marker = some [48] ∧
-    natCrash .repaired .latest 2 k (.mean .latest) = some [2, 254] ∧
-    resumeOutcome .repaired .latest 2 k ≠ some 2 := ⟨80, by decide⟩
+    With temp + `os.replace` alone (`Proto.atomicOnly`, the first repair) every single file is replaced atomically but the SET
+    `latest.*` is not: between the first move onto a `latest.*` file of iteration j ≥ 1 and the move of the marker the
+    directory holds files of iteration j under a marker that says j-1 (`atomicOnly_latest_window_witness`).
+    The second repair (`Proto.repaired`, fixes/C25_latest_invalidate_marker.diff) removes the marker before `latest.*` is
+    touched: in the window there is no marker, a resumed run starts from scratch and — iterations being deterministic —
+    ends with the same result. -/
 
-/-! ### strategy `latest`, repaired protocol: what IS proved (`crash_safe_latest_partial`)
+/-- the window of the first repair: marker 0, mean of iteration 1 already in place, resume returns a wrong state -/
+theorem atomicOnly_latest_window_witness : ∃ k, natCrash .atomicOnly .latest 2 k .marker = some [48] ∧
+    natCrash .atomicOnly .latest 2 k (.mean .latest) = some [2, 254] ∧
+    resumeOutcome .atomicOnly .latest 2 k ≠ some 2 := ⟨80, by decide⟩
 
-    `GoodL`: marker absent, or marker = i and latest.* / histories / random state complete and from iteration i.
-    `pend false pre`: scanning the operations `pre`, has a latest.<k|mean>.pickle file been moved into place since the marker
-    was last moved?  The window of the known finding is exactly `pend = true` while a marker exists. -/
-
-/-- from a `GoodL` directory `resume=True` never raises and returns the uninterrupted (samples, mean) -/
-theorem resume_correct_latest (sys : Sys S) (hl : Lawful sys) (s0 : S) (total : Nat) (fs : FS Path)
-    (hg : GoodL sys s0 total fs) :
-    (run sys .repaired .latest true total s0 fs).2 = .ok (sAfter sys s0 total) :=
-  (runL_good hl s0 total true hg (Or.inl rfl)).1
-
-/-- every crash point outside the window (flag down, or no marker yet) of a run started on a `GoodL` directory leaves a
-    `GoodL` directory -/
-theorem latest_outside_window_good (sys : Sys S) (hl : Lawful sys) (s0 : S) (total : Nat) (fs : FS Path)
-    (hg : GoodL sys s0 total fs) (pre : List (Op Path))
-    (hp : pre <+: (run sys .repaired .latest true total s0 fs).1)
-    (hout : pend false pre = false ∨ execs fs pre .marker = none) : GoodL sys s0 total (execs fs pre) := by
-  rcases hout with h | h
-  · exact (runL_good hl s0 total true hg (Or.inl rfl)).2 pre hp h
-  · exact Or.inl h
-
-/-- **crash_safe_latest_partial**: any number of runs, each killed at any byte-granular crash point OUTSIDE the window
-    (`ReachL`), then `resume=True`: the uninterrupted result.  (The excluded region is the known finding
-    C25-latest_not_staged; `latest_window_witness` is a point inside it.) -/
-theorem crash_safe_latest_partial (sys : Sys S) (hl : Lawful sys) (s0 : S) (total : Nat) (fs : FS Path)
-    (hr : ReachL sys total s0 fs) :
+/-- **save strategy `latest`, repaired protocol: crash safe at EVERY crash point** — from every reachable directory a
+    `resume=True` start does not raise and returns exactly the uninterrupted (samples, mean). -/
+theorem crash_safe_latest (sys : Sys S) (hl : Lawful sys) (s0 : S) (total : Nat) (fs : FS Path)
+    (hr : Reach sys .repaired .latest total s0 fs) :
     (run sys .repaired .latest true total s0 fs).2 = .ok (sAfter sys s0 total) :=
   (runL_good hl s0 total true (reachL_good hl s0 total hr) (Or.inl rfl)).1
 
-/-- non-vacuity: a kill in the middle of the temp file of sample 0 of iteration 1 is outside the window … -/
-example : ReachL (natSys 2) 3 0 (natCrash .repaired .latest 3 59) := ReachL.first false 59 (Or.inl (by decide))
-/-- … and the witness point of the known finding is inside it (flag up, marker present) -/
-example : pend false ((natRun .repaired .latest false 2 FS.empty).1.take 80) = true ∧
-    natCrash .repaired .latest 2 80 .marker = some [48] := by decide
+/-- single-crash form for `latest` -/
+theorem crash_safe_latest_single (sys : Sys S) (hl : Lawful sys) (s0 : S) (total k : Nat) (r0 : Bool) :
+    (run sys .repaired .latest true total s0
+      (crash FS.empty (run sys .repaired .latest r0 total s0 FS.empty).1 k)).2 = .ok (sAfter sys s0 total) :=
+  crash_safe_latest sys hl s0 total _ (Reach.first r0 k)
+
+/-- the marker implies completeness for `latest` too: if it exists it is `digits i`, and latest.*, both histories and the
+    random state are complete and from iteration i -/
+theorem marker_implies_complete_latest (sys : Sys S) (hl : Lawful sys) (s0 : S) (total : Nat) (fs : FS Path)
+    (hr : Reach sys .repaired .latest total s0 fs) (t : Bytes) (ht : fs .marker = some t) :
+    ∃ i, i < total ∧ t = sys.digits i ∧ GoodAtL sys s0 i fs := by
+  rcases reachL_good hl s0 total hr with h | ⟨i, hi, hg⟩
+  · rw [h] at ht; cases ht
+  · refine ⟨i, hi, ?_, hg⟩
+    have := hg.1; rw [ht] at this; injection this
+
+/-- non-vacuity: the same kill point that was fatal for the first repair (index shifted by the one `remove` per iteration):
+    the marker is gone, the resumed run starts from scratch and returns the right state -/
+example : natCrash .repaired .latest 2 82 .marker = none ∧
+    natCrash .repaired .latest 2 82 (.mean .latest) = some [2, 254] ∧
+    resumeOutcome .repaired .latest 2 82 = some 2 := by decide
 
 end NiftyVerif.C25
